@@ -814,6 +814,13 @@ class _FormatToFString(ast.NodeTransformer):
     def visit_Call(self, node):
         self.generic_visit(node)
         f = node.func
+        # T.format_map({'k': v, ...}) / T.format(**{'k': v})  ->  T.format(k=v, ...)
+        if isinstance(f, ast.Attribute) and f.attr == 'format_map' and len(node.args) == 1 and not node.keywords and isinstance(node.args[0], ast.Dict) \
+                and all(isinstance(k, ast.Constant) and isinstance(k.value, str) and k.value.isidentifier() for k in node.args[0].keys):
+            node = ast.copy_location(ast.Call(func=ast.Attribute(value=f.value, attr='format', ctx=ast.Load()), args=[],
+                                              keywords=[ast.keyword(arg=k.value, value=v) for k, v in zip(node.args[0].keys, node.args[0].values)]), node)
+            ast.fix_missing_locations(node)
+            f = node.func
         if not (isinstance(f, ast.Attribute) and f.attr == 'format'):
             return node
         if isinstance(f.value, ast.Constant) and isinstance(f.value.value, str):
@@ -1402,6 +1409,15 @@ class Desugar(ast.NodeTransformer):
                 for x in ast.walk(b0.value):
                     if isinstance(x, (ast.Call, ast.ListComp, ast.GeneratorExp)) and not isinstance(x, ast.Lambda):
                         del via_local[:]
+                        # (E(p) for p in filter(None, D)): the mapped form - every part that is present contributes E(part)
+                        if isinstance(x, (ast.ListComp, ast.GeneratorExp)) and len(x.generators) == 1 and not x.generators[0].ifs and isinstance(x.generators[0].target, ast.Name) \
+                                and not (isinstance(x.elt, ast.Name) and x.elt.id == x.generators[0].target.id):
+                            inner_parts = optional_display(x.generators[0].iter)
+                            if inner_parts is not None:
+                                pv = x.generators[0].target.id
+                                found = (x, [(c_, _Subst({pv: v_}).visit(copy.deepcopy(x.elt))) for c_, v_ in inner_parts])
+                                break
+                            del via_local[:]
                         parts = optional_display(x)
                         if parts is not None:
                             found = (x, parts)
